@@ -235,3 +235,33 @@ MUTANTS += [
     {"id": 'C09-layout-width-is-max-height', "prop": "C09", "expect": 'SHARED-LAYOUT',
      "edits": [('src/view/text.rs', 'cell.layout(ctx, ct.max.width, self.wraps, &mut size, &mut cursor);', 'cell.layout(ctx, ct.max().height, self.wraps, &mut size, &mut cursor);')]},
 ]
+
+
+# ---- round 5 (seeded/benign C09-M): the measuring loop of `str::layout` and `Text::layout` in ONE private helper shared by both; the
+# Cell::layout site is judged in each caller (arguments in the caller's vocabulary); near misses
+_STR_L_OLD = ("        let mut size = Size::empty();\n        let mut cursor = Position::origin();\n        let face = Face::default();\n" + _STR_LAYOUT)
+_TEXT_L_OLD = ("        let mut size = Size::empty();\n        let mut cursor = Position::origin();\n" + _TEXT_LAYOUT)
+_SHARED_FN = ("fn cells_extent<C: std::borrow::Borrow<Cell>>(ctx: &ViewContext, cells: impl IntoIterator<Item = C>, max_width: usize, wraps: bool) -> Size {\n"
+              "    let mut extent = Size::empty();\n    let mut cursor = Position::origin();\n    for cell in cells {\n"
+              "        cell.borrow().layout(ctx, max_width, %s, &mut extent, &mut cursor);\n    }\n    extent\n}\n\nimpl View for String {\n")
+
+
+def _shared(str_call, text_call, inner="wraps", vis=""):
+    return [(T_, _STR_L_OLD, "        let face = Face::default();\n        let size = " + str_call + ";\n"),
+            (T_, _TEXT_L_OLD, "        let size = " + text_call + ";\n"),
+            (T_, "impl View for String {\n", vis + _SHARED_FN % inner)]
+
+
+MUTANTS += [
+    {"id": "C09-benign-shared-layout-helper", "prop": "C09", "benign": True,
+     "edits": _shared("cells_extent(ctx, self.chars().map(|c| Cell::new_char(face, c)), ct.max.width, true)", "cells_extent(ctx, &self.cells, ct.max.width, self.wraps)")},
+    {"id": "C09-benign-shared-layout-helper-hoisted-args", "prop": "C09", "benign": True,
+     "edits": _shared("{\n            let width = ct.max.width;\n            cells_extent(ctx, self.chars().map(|c| Cell::new_char(face, c)), width, true)\n        }",
+                      "{\n            let (width, wraps) = (ct.max.width, self.wraps);\n            cells_extent(ctx, self.cells.iter(), width, wraps)\n        }")},
+    {"id": "C09-shared-layout-helper-str-nowrap", "prop": "C09", "expect": "SHARED-LAYOUT",
+     "edits": _shared("cells_extent(ctx, self.chars().map(|c| Cell::new_char(face, c)), ct.max.width, false)", "cells_extent(ctx, &self.cells, ct.max.width, self.wraps)")},
+    {"id": "C09-shared-layout-helper-text-min-width", "prop": "C09", "expect": "SHARED-LAYOUT",
+     "edits": _shared("cells_extent(ctx, self.chars().map(|c| Cell::new_char(face, c)), ct.max.width, true)", "cells_extent(ctx, &self.cells, ct.min.width, self.wraps)")},
+    {"id": "C09-shared-layout-helper-negates-wraps", "prop": "C09", "expect": "SHARED-LAYOUT",
+     "edits": _shared("cells_extent(ctx, self.chars().map(|c| Cell::new_char(face, c)), ct.max.width, true)", "cells_extent(ctx, &self.cells, ct.max.width, self.wraps)", inner="!wraps")},
+]
